@@ -268,10 +268,10 @@ def _z3v():
 
 def jsonable(x, depth=0):
     """best-effort conversion of witnesses / samples to JSON-able values"""
-    if depth > 6:
-        return str(x)
     if isinstance(x, (str, int, float, bool)) or x is None:
         return x
+    if depth > 12:
+        return str(x)
     if isinstance(x, bytes):
         return x.hex()
     if isinstance(x, dict):
